@@ -824,3 +824,70 @@ def check_refusals(ctx, rep):
         else:
             rep.ok("T-HAYSON", key, b.where(min(errs)), "errors only on absent / wrongly typed members, refused sub-parses and fixed spellings (%d paths)" % len(paths))
     return n
+
+
+def check_optional_members_complete(ctx, rep):
+    """an optional member whose presence follows a field of the value (`unit`, `dis`, `meta`) is written on *every* path on which the
+    field is present: each path from entry to a normal return that passes no write of the member carries the decision `field is None`.
+    An early return placed before the member is written (a shortcut for large numbers, say) loses the field for the values that take it"""
+    from rules import pathcond as PC
+
+    prog = ctx.prog
+    n = 0
+    for b in prog.bodies.values():
+        if not b.file.endswith("encoding/json/encode.rs") or "::test" in b.id or b.rec["kind"] == "Closure" or b.rec.get("name") != "serialize":
+            continue
+        sites = {}
+        field_of = {}
+        for bi, t in b.calls():
+            nm = strip_generics(mir.callee_name(t) or "")
+            if not nm.endswith("serialize_entry") or len(t["args"]) < 2:
+                continue
+            kd = G.describe(b, t["args"][1])
+            if kd.kind != "conststr":
+                continue
+            sites.setdefault(kd.v, set()).add(bi)
+            for g in G.guards_at(b, bi):
+                if g.a is None:
+                    continue
+                v = _presence_operand(g.a)
+                m = re.fullmatch(r"_1\*\.([A-Za-z_0-9]+)", repr(v))
+                if m and b.rec.get("impl") and "Option<" in (field_types_of(prog, b).get(m.group(1), "")):
+                    field_of.setdefault(kd.v, set()).add(m.group(1))
+        rets = {bi for bi in range(b.n) if b.term(bi)["k"] == "return"}
+        for member, fields in sorted(field_of.items()):
+            if len(fields) != 1:
+                continue
+            fld = next(iter(fields))
+            n += 1
+            T = sites[member]
+            paths = PC.enumerate_paths(b, lambda x: x in T or x in rets)
+            tyname = b.short.split(" for ")[-1].split(">")[0].split("::")[-1]
+            key = "optional-member-complete:%s:%s" % (tyname, member)
+            leaks = []
+            for p in paths:
+                if p[0] in T:
+                    continue
+                if len({a for a, _tv in p[1]}) < len(p[1]):
+                    continue  # the same test taken both ways: not a feasible path
+                lits = dict(p[1])
+                absent = any((a == "some(_1*.%s)" % fld and tv is False) or (a.startswith("is(_1*.%s," % fld) and a.endswith(",0)") and tv is True) or (a.startswith("is(_1*.%s," % fld) and a.endswith(",1)") and tv is False) for a, tv in lits.items())
+                # an error return (`?` break edge) is not a document
+                failed = any("Try>::branch" in a and a.endswith(",1)") and tv is True for a, tv in lits.items()) or any("Try>::branch" in a and a.endswith(",0)") and tv is False for a, tv in lits.items())
+                if not absent and not failed:
+                    leaks.append({a: tv for a, tv in lits.items() if "Try>::branch" not in a})
+            if leaks:
+                rep.bad("T-HAYSON", "T-HAYSON:" + key, b.where(min(T)), "Serialize for %s can return without writing %r although .%s is present (path conditions: %s): the field is lost for those values" % (tyname, member, fld, leaks[0]))
+            else:
+                rep.ok("T-HAYSON", key, b.where(min(T)), "every successful path without %r has .%s == None (%d paths)" % (member, fld, len(paths)))
+    return n
+
+
+def field_types_of(prog, body):
+    im = body.rec.get("impl") or {}
+    adt = im.get("self_adt")
+    out = {}
+    for v in (prog.adts.get(adt) or {}).get("variants", []):
+        for f in v.get("fields", []):
+            out[f["name"]] = f["ty"]
+    return out
